@@ -50,15 +50,15 @@ use std::time::Duration;
 
 pub const META: Meta = Meta {
     level: "model_checking",
-    rule: "BFS over all histories (depth 6 quick / 8 thorough) of {reservation request on connection c, pending accept completes ok/fails, reservation times out, circuit request from connection c to peer p, circuit stage outcome ok/fail (STOP negotiation, deny, accept, close), connection closed} over 5 pre-established connections (P1 x2, P2 x2, P3 x1) against the real relay::Behaviour with limits reservations 2 / per peer 1, circuits 2 / per peer 1; states deduplicated on the full handler-model + circuit-table state (circuit ids by admission rank) + a mirror of the behaviour's reservation map. Non-trivial = states in which at least one reservation or circuit is held.",
+    rule: "BFS over all histories (depth 6 quick / 8 thorough) of {reservation request on connection c, pending accept completes ok/fails, reservation times out, circuit request from connection c to peer p, circuit stage outcome ok/fail (STOP negotiation, deny, accept, close), connection closed} over 5 pre-established connections (P1 x2, P2 x2, P3 x1) against the real relay::Behaviour with limits (reservations / per peer, circuits / per peer) = (2/1, 2/1) and (2/2, 2/2) — the second so that one peer can hold reservations and circuits over two connections; states deduplicated on the full handler-model + circuit-table state (circuit ids by admission rank) + a mirror of the behaviour's reservation map. Non-trivial = states in which at least one reservation or circuit is held.",
     explanation: "Every transition executes the real Behaviour (on_connection_handler_event / on_swarm_event / poll); commands are consumed by an event-level model of the production handler; the four limits are checked in every reached state; an un-deduplicated DFS to a smaller depth re-checks all paths without merging.",
-    assumptions: &["handlers are modelled at event level from the production handler's code (events only in handler states that can produce them); whether a reservation time-out can be reported while an accept is in flight is taken from a probe of the production handler at the start of the run", "deny replies complete immediately (they only generate events)", "5 connections, 3 peers, tiny limits (small-scope hypothesis)", "no rate limiters"],
+    assumptions: &["handlers are modelled at event level from the production handler's code (events only in handler states that can produce them); whether a reservation time-out can be reported while an accept is in flight is taken from a probe of the production handler at the start of the run", "deny replies complete immediately (they only generate events)", "circuit requests to a peer for which the behaviour tracks more than one active reservation are not explored (destination connection chosen by HashMap order)", "5 connections, 3 peers, tiny limits (small-scope hypothesis)", "no rate limiters"],
 };
 
-const MAX_RES: usize = 2;
-const MAX_RES_PEER: usize = 1;
-const MAX_CIRC: usize = 2;
-const MAX_CIRC_PEER: usize = 1;
+/// limit configurations explored: [max_reservations, per peer, max_circuits, per peer].
+/// The second one lets one peer hold reservations on two connections, so that "reservations"
+/// and "peers with a reservation" differ.
+const CONFIGS: [[usize; 4]; 2] = [[2, 1, 2, 1], [2, 2, 2, 2]];
 const NCONN: usize = 5;
 const CONN_PEER: [u8; NCONN] = [1, 1, 2, 2, 3];
 const MAX_RECORDS: usize = 4;
@@ -153,6 +153,7 @@ fn timeout_while_accepting() -> bool {
 }
 
 pub struct Sys {
+    lim: [usize; 4],
     beh: relay::Behaviour,
     conns: Vec<Conn>,
     circs: Vec<Circ>,
@@ -196,14 +197,14 @@ fn connect_req(dst: PeerId) -> CircuitReq {
 }
 
 impl Sys {
-    pub fn new() -> Self {
+    pub fn with(lim: [usize; 4]) -> Self {
         let cfg = relay::Config {
-            max_reservations: MAX_RES,
-            max_reservations_per_peer: MAX_RES_PEER,
+            max_reservations: lim[0],
+            max_reservations_per_peer: lim[1],
             reservation_duration: RES_DUR,
             reservation_rate_limiters: Vec::new(),
-            max_circuits: MAX_CIRC,
-            max_circuits_per_peer: MAX_CIRC_PEER,
+            max_circuits: lim[2],
+            max_circuits_per_peer: lim[3],
             max_circuit_duration: CIRC_DUR,
             max_circuit_bytes: 1 << 17,
             circuit_src_rate_limiters: Vec::new(),
@@ -222,7 +223,7 @@ impl Sys {
             beh.on_swarm_event(FromSwarm::ConnectionEstablished(ConnectionEstablished { peer_id: peer(CONN_PEER[c]), connection_id: conn_id(c), endpoint: &ep, failed_addresses: &[], other_established: other }));
             conns.push(Conn { open: true, active: false, pending: None, mirror: Some(false) });
         }
-        let mut s = Sys { beh, conns, circs: Vec::new(), newest: None };
+        let mut s = Sys { lim, beh, conns, circs: Vec::new(), newest: None };
         s.drain().expect("no output expected initially");
         s
     }
@@ -337,7 +338,9 @@ impl Sys {
         CONN_PEER[x.src] == p || CONN_PEER[x.dst] == p
     }
 
+    #[allow(non_snake_case)]
     fn limits(&self) -> Result<(), String> {
+        let [MAX_RES, MAX_RES_PEER, MAX_CIRC, MAX_CIRC_PEER] = self.lim;
         let total_res = (0..NCONN).filter(|c| self.held_res(*c)).count();
         for p in 1..=3u8 {
             let held = Self::peer_conns(p).filter(|c| self.held_res(*c)).count();
@@ -402,7 +405,12 @@ impl System for Sys {
             }
             if self.circs.len() < MAX_RECORDS {
                 for p in 1..=3u8 {
-                    if p != CONN_PEER[c] {
+                    // When the behaviour believes the destination has several active
+                    // reservations it picks the destination connection by HashMap iteration
+                    // order (per-instance random keys): such requests would make the history ->
+                    // state map non-deterministic and are left out of the alphabet.
+                    let tracked = Self::peer_conns(p).filter(|d| self.conns[*d].mirror == Some(true)).count();
+                    if p != CONN_PEER[c] && tracked <= 1 {
                         v.push(Act::CircReq(c, p));
                     }
                 }
@@ -551,10 +559,18 @@ impl System for Sys {
 
 pub fn run(ctx: &Ctx) -> Outcome {
     let mut out = Outcome::default();
-    let cfg = json!({"limits": "res 2 / per peer 1, circuits 2 / per peer 1", "connections": "P1 c0 c1, P2 c2 c3, P3 c4"});
+    let lim_of = |v: &mc::Value| -> [usize; 4] {
+        let mut l = CONFIGS[0];
+        if let Some(a) = v["cfg"]["lim"].as_array() {
+            for (i, x) in a.iter().take(4).enumerate() {
+                l[i] = x.as_u64().unwrap_or(l[i] as u64) as usize;
+            }
+        }
+        l
+    };
     if let Some(case) = &ctx.replay {
         out.evaluations = 1;
-        if let Err(m) = bfs::replay_history(Sys::new(), case) {
+        if let Err(m) = bfs::replay_history(Sys::with(lim_of(case)), case) {
             out.violation(bfs::signature_of(&m), m, case.clone());
         }
         return out;
@@ -569,17 +585,21 @@ pub fn run(ctx: &Ctx) -> Outcome {
         Err(p) => out.machinery(format!("handler probe panicked: {p}")),
     }
     let depth = ctx.tier.pick(6, 8);
-    let (st, v) = bfs::bfs_replay(Sys::new, depth, ctx.tier.pick(400_000, 3_000_000));
-    bfs::record(&mut out, &cfg, &st, &v);
     let ddepth = ctx.tier.pick(3, 4);
-    let (n, capped, v2) = bfs::dfs_all(Sys::new, ddepth, 3_000_000);
-    out.count("dfs_companion_sequences", n);
-    out.evaluations += n;
-    out.traces += n;
-    if capped {
-        out.caps.push(format!("dfs companion capped at {n} sequences"));
+    for lim in CONFIGS {
+        let cfg = json!({"lim": lim, "limits": format!("reservations {} / per peer {}, circuits {} / per peer {}", lim[0], lim[1], lim[2], lim[3]), "connections": "P1 c0 c1, P2 c2 c3, P3 c4"});
+        let (st, v) = bfs::bfs_replay(|| Sys::with(lim), depth, ctx.tier.pick(400_000, 3_000_000));
+        bfs::record(&mut out, &cfg, &st, &v);
+        out.count(&format!("states_limits_{}_{}_{}_{}", lim[0], lim[1], lim[2], lim[3]), st.states);
+        let (n, capped, v2) = bfs::dfs_all(|| Sys::with(lim), ddepth, 3_000_000);
+        out.count("dfs_companion_sequences", n);
+        out.evaluations += n;
+        out.traces += n;
+        if capped {
+            out.caps.push(format!("dfs companion capped at {n} sequences"));
+        }
+        bfs::record(&mut out, &cfg, &Default::default(), &v2);
     }
-    bfs::record(&mut out, &cfg, &Default::default(), &v2);
     let c = CNT.with(|c| c.borrow().clone());
     out.count("cmd_accept_reservation", c.accept_resv);
     out.count("cmd_deny_reservation", c.deny_resv);
